@@ -105,7 +105,7 @@ func TestC06(t *testing.T) {
 		rec.Extra("exhaustive_depth", depth)
 		rec.Extra("alphabet_size", len(alphabet))
 	}
-	ev.Rapid(t, rec, "random", rec.Scale(3000, 300000), func(t *rapid.T) aggh.XCase {
+	ev.Rapid(t, rec, "random", rec.Scale(3000, 1500000), func(t *rapid.T) aggh.XCase {
 		to := timeouts[rapid.IntRange(0, 1).Draw(t, "to")]
 		// beyond the exhaustive alphabet: a fourth flow that is only ready once both of its nodes reported
 		// (a held flow that is waiting must be scheduled like any other)
